@@ -48,6 +48,9 @@ func genTasksScenario(rng *rand.Rand, tier string) *TaskPlan {
 		}
 		p.Clients = append(p.Clients, prog)
 	}
+	if rng.IntN(2) == 0 {
+		p.MTLoad = 1 + rng.IntN(3)
+	}
 	return p
 }
 
@@ -178,10 +181,27 @@ func execTasksScenario(p *TaskPlan, rc *simkit.RunCtx) {
 		simrt.AwaitQuiescence(5 * time.Minute) // what was queued so far is executed before the module is stopped
 		done := make(chan struct{})
 		down = true
+		if p.MTLoad > 0 {
+			// microtasks keep the time slots busy: a task taken from the queue now waits for its slot while the
+			// module goes down
+			for k := 0; k < p.Limit+1; k++ {
+				m.StartMicroTask("load", time.Hour, func(ctx context.Context) error {
+					select {
+					case <-time.After(4 * time.Minute):
+					case <-ctx.Done():
+					}
+					return nil
+				})
+			}
+			time.Sleep(time.Millisecond)
+		}
 		go func() {
 			defer close(done)
 			run(p.Clients[1])
 		}()
+		if p.MTLoad > 0 {
+			time.Sleep(time.Duration(p.MTLoad) * time.Second)
+		}
 		m.Disable()
 		s.mgmtErrs = append(s.mgmtErrs, modules.ManageModules())
 		m.Enable()
